@@ -635,3 +635,118 @@ pub fn gen_script(rng: &mut Rng, start: &Pos, flavor: Flavor, max_steps: usize) 
         obs,
     }
 }
+
+/// Equality probes (C13): chains built from a DIFFERENT start position with the same UCI list (`alt`), and
+/// reversible cycles from a start whose counters are saturated, each followed by `eq`.
+pub fn gen_eq_probe(rng: &mut Rng, start0: &Pos) -> Script {
+    use owlchess::{Cell, Coord, Piece};
+    // variant B: saturate both counters so that a reversible cycle restores the raw position exactly
+    let saturated = rng.chance(1, 3);
+    let start: Pos = if saturated {
+        let mut r = start0.sent;
+        r.move_counter = 65535;
+        r.move_number = 65535;
+        posgen::pos_of(r, start0.fam).unwrap_or_else(|| Pos {
+            sent: start0.sent,
+            board: start0.board.clone(),
+            fam: start0.fam,
+        })
+    } else {
+        Pos {
+            sent: start0.sent,
+            board: start0.board.clone(),
+            fam: start0.fam,
+        }
+    };
+    let mut g = G {
+        rng,
+        sim: ChainSim::new(start.board.clone()),
+        steps: Vec::new(),
+        obs: BTreeMap::new(),
+        max: 40,
+        st_pct: 0,
+    };
+    g.emit("st".to_string());
+    if saturated {
+        g.step("clone".to_string());
+        // try to find a four-move reversible cycle a, b, a⁻¹, b⁻¹ of non-pawn, non-capturing simple moves
+        let b0 = g.last();
+        let mut found = false;
+        let l0 = owlchess::movegen::legal::gen_all(&b0);
+        'outer: for a in l0.iter().filter(|m| m.kind() == MoveKind::Simple && b0.get(m.dst()).is_free()
+            && m.src_cell().piece() != Some(Piece::Pawn)).take(12) {
+            let b1 = match b0.make_move(*a) { Ok(x) => x, Err(_) => continue };
+            let l1 = owlchess::movegen::legal::gen_all(&b1);
+            for bb in l1.iter().filter(|m| m.kind() == MoveKind::Simple && b1.get(m.dst()).is_free()
+                && m.src_cell().piece() != Some(Piece::Pawn)).take(12) {
+                let b2 = match b1.make_move(*bb) { Ok(x) => x, Err(_) => continue };
+                let ar = format!("{}{}", a.dst(), a.src());
+                let b3 = match Move::from_uci_legal(&ar, &b2).ok().and_then(|m| b2.make_move(m).ok()) {
+                    Some(x) => x, None => continue };
+                let br = format!("{}{}", bb.dst(), bb.src());
+                if Move::from_uci_legal(&br, &b3).is_ok() {
+                    g.step(format!("pu {}", codec::str_enc(&a.uci().to_string())));
+                    g.step(format!("pu {}", codec::str_enc(&bb.uci().to_string())));
+                    g.step(format!("pu {}", codec::str_enc(&ar)));
+                    g.step(format!("pu {}", codec::str_enc(&br)));
+                    found = true;
+                    break 'outer;
+                }
+            }
+        }
+        if !found {
+            g.act_push_legal();
+        }
+        g.step("eq".to_string());
+        g.step("swap".to_string());
+        g.step("eq".to_string());
+    } else {
+        let n = 1 + g.rng.usize(5);
+        for _ in 0..n {
+            g.act_push_legal();
+        }
+        for _ in 0..3 {
+            // a different start: counters changed, a man retyped, a man removed, rights / mark dropped
+            let mut r = start.sent;
+            match g.rng.usize(6) {
+                0 => r.move_counter = if r.move_counter > 0 { r.move_counter - 1 } else { 1 },
+                1 => r.move_number = if r.move_number > 1 { r.move_number - 1 } else { 2 },
+                2 | 3 => {
+                    let occ: Vec<usize> = (0..64).filter(|&i| {
+                        let c = r.cells[i];
+                        c != Cell::EMPTY && c.piece() != Some(Piece::King) && c.piece() != Some(Piece::Pawn)
+                    }).collect();
+                    if !occ.is_empty() {
+                        let i = *g.rng.pick(&occ);
+                        let c = r.cells[i];
+                        let np = *g.rng.pick(&[Piece::Knight, Piece::Bishop, Piece::Rook, Piece::Queen]);
+                        r.cells[i] = Cell::from_parts(c.color().unwrap(), np);
+                    }
+                }
+                4 => {
+                    let occ: Vec<usize> = (0..64).filter(|&i| {
+                        let c = r.cells[i];
+                        c != Cell::EMPTY && c.piece() != Some(Piece::King)
+                    }).collect();
+                    if !occ.is_empty() {
+                        let i = *g.rng.pick(&occ);
+                        r.cells[i] = Cell::EMPTY;
+                    }
+                }
+                _ => {
+                    r.castling = owlchess::CastlingRights::EMPTY;
+                    r.ep_source = None;
+                }
+            }
+            let _ = Coord::from_index(0);
+            g.step(format!("alt {}", codec::raw_fmt(&r)));
+            g.step("eq".to_string());
+        }
+    }
+    g.emit("st".to_string());
+    let final_len = g.sim.cur.len();
+    let steps = g.steps;
+    let obs = g.obs;
+    let line = format!("chain {} ; {}", start.raw_text(), steps.join(" ; "));
+    Script { line, steps, final_len, obs }
+}
